@@ -35,7 +35,7 @@ def run(tier):
     g = tlc("GenNames", "GenNames.cfg", cwd=sd, workers=NPROC)
     tlc_must_pass(g, "GenNames")
     gen = printed_json(g, "CASE")
-    if len(gen) != 5 * 4 * 3 * 4 * 4 * 4:
+    if len(gen) != 5 * 4 * 3 * 4 * 6 * 4:
         raise Broken("GenNames produced %d cases" % len(gen))
     gen.sort(key=lambda c: json.dumps(c, sort_keys=True))
     rnd = random.Random(seed())
@@ -55,7 +55,15 @@ def run(tier):
             col, rowf = vn, cn + ln + on
             if a["files"] == "short":
                 col, rowf = col[:max(1, nv - 2)], rowf[:max(1, nalg - 1)]
-            files = {".col": "".join(n + eol for n in col), ".row": "".join(n + eol for n in rowf)}
+            if a["files"] == "colonly":
+                rowf = []
+            if a["files"] == "rowonly":
+                col = []
+            files = {}
+            if a["files"] != "rowonly":
+                files[".col"] = "".join(n + eol for n in col)
+            if a["files"] != "colonly":
+                files[".row"] = "".join(n + eol for n in rowf)
         else:
             col, rowf = [], []
         opts = {"native": [], "slack": [acc["LinConRange"]["opt"] + "=0"], "linear": list(linear_opts)}[a["rmode"]]
@@ -119,7 +127,7 @@ def run(tier):
         "traces_validated_against_impl": len(recs), "samples": [cases[0]["a"], cases[-1]["a"]],
         "evaluations": len(recs), "runs_with_names_active": nactive, "rejected_runs": nbad, "generated_cases_total": len(gen),
         "exhaustive": tier == "thorough",
-        "explanation": "TLC enumerates models (row kinds, extra nonlinear/logical constraints => multi-level conversions, slack/linear-only range handling) x cvt:names 0..3 x .col/.row present/absent/short/CRLF x adversarial original name sets (names that look like derived, generic or slack names); the names received by the ModelAPI in the real driver are validated by TLC: non-empty, originals faithful, derived names prefixed by an original name, pairwise distinct per class",
+        "explanation": "TLC enumerates models (row kinds, extra nonlinear/logical constraints => multi-level conversions, slack/linear-only range handling) x cvt:names 0..3 x .col/.row present/absent/short/CRLF/only one of them x adversarial original name sets (names that look like derived, generic or slack names); the names received by the ModelAPI in the real driver are validated by TLC: non-empty, originals faithful, derived names prefixed by an original name, pairwise distinct per class",
         "violations_new": nnew,
     }, time.time() - t0, violations=nnew,
         assumptions=["'derived from the item it comes from' is checked as: some original item's name is a prefix of the derived name"])
